@@ -49,7 +49,7 @@ pub const fn pow_mod(mut b: u64, mut e: u64, p: u64) -> u64 {
 }
 
 macro_rules! plain_field {
-    ($cfg:ident, $ty:ident, $p:expr, $gen:expr, $adicity:expr, $trace_m1_d2:expr, $bits:expr) => {
+    ($cfg:ident, $ty:ident, $p:expr, $gen:expr, $adicity:expr, $trace_m1_d2:expr, $bits:expr $(, { $($extra:tt)* })?) => {
         pub struct $cfg;
         impl $cfg {
             pub const MUL: [[u8; 32]; 32] = mul_table::<$p>();
@@ -64,6 +64,7 @@ macro_rules! plain_field {
             const ZERO: Fp<Self, 1> = Self::el(0);
             const ONE: Fp<Self, 1> = Self::el(1);
             const TWO_ADICITY: u32 = $adicity;
+            $($($extra)*)?
             // generator^((p-1)/2^s)
             const TWO_ADIC_ROOT_OF_UNITY: Fp<Self, 1> = Self::el(pow_mod($gen, ($p as u64 - 1) >> $adicity, $p as u64));
             const SQRT_PRECOMP: Option<SqrtPrecomputation<Fp<Self, 1>>> = Some(SqrtPrecomputation::TonelliShanks {
@@ -151,5 +152,10 @@ plain_field!(PF13Config, PF13, 13, 2, 2, 1, 4);
 plain_field!(PF17Config, PF17, 17, 3, 4, 0, 5);
 plain_field!(PF5Config, PF5, 5, 2, 2, 0, 3);
 plain_field!(PF3Config, PF3, 3, 2, 1, 0, 2);
-plain_field!(PF19Config, PF19, 19, 2, 1, 4, 5);
+// F_19: 18 = 2 * 3^2, so mixed-radix domains of size 3, 6, 9, 18 exist (C07)
+plain_field!(PF19Config, PF19, 19, 2, 1, 4, 5, {
+    const SMALL_SUBGROUP_BASE: Option<u32> = Some(3);
+    const SMALL_SUBGROUP_BASE_ADICITY: Option<u32> = Some(2);
+    const LARGE_SUBGROUP_ROOT_OF_UNITY: Option<Fp<Self, 1>> = Some(Self::el(2));
+});
 plain_field!(PF7Config, PF7, 7, 3, 1, 1, 3);
